@@ -26,6 +26,9 @@ Proof. destruct a, b; cbn; intros E; try discriminate; reflexivity. Qed.
 Lemma dt_eqb_refl (a : dt) : dt_eqb a a = true.
 Proof. destruct a; reflexivity. Qed.
 
+Lemma is_call_MCall m : is_call m = true -> m = MCall.
+Proof. destruct m; cbn; intros E; try discriminate; reflexivity. Qed.
+
 Section Proofs.
 Context {T : Type}.
 Variable cast : dt -> dt -> T -> T.
@@ -443,6 +446,115 @@ Proof.
     cbn [exit_all]. rewrite <- Hb, wa_exit_same. cbn. reflexivity.
   - rewrite Hd, wa_enter_nodtype, Hat, Hb, Hr. rewrite <- Hb, wa_exit_same. reflexivity.
 Qed.
+
+
+(* ---------- out together with dtype= of another type: writable_array's
+   temporary copy and write-back ---------- *)
+Lemma rd_app_old (st : store) a j : (j < length st)%nat -> rd (st ++ [a]) j = rd st j.
+Proof. intros Hj. unfold rd. apply app_nth1. exact Hj. Qed.
+Lemma rd_app_new (st : store) a : rd (st ++ [a]) (length st) = a.
+Proof. unfold rd. rewrite app_nth2 by lia. rewrite Nat.sub_diag. reflexivity. Qed.
+
+Definition rop_in_range (n : nat) (r : @rop T) : Prop :=
+  match r with RopBuf i => (i < n)%nat | RopScal _ => True end.
+Lemma raw_in_app (st : store) a rins :
+  Forall (rop_in_range (length st)) rins -> map (raw_in (st ++ [a])) rins = map (raw_in st) rins.
+Proof.
+  induction 1 as [|r rins Hr _ IH]; cbn; [reflexivity|]. rewrite IH. f_equal.
+  destruct r; cbn in *; [rewrite rd_app_old by exact Hr|]; reflexivity.
+Qed.
+
+Section OutDtype.
+Variables (NP : npsem) (st : store) (m : meth) (kw : kwargs) (rins : list (@rop T))
+          (id : nat) (d : dt) (r : @narr T).
+Hypothesis Hat : is_at m = false.
+Hypothesis Hid : (id < length st)%nat.
+Hypothesis Hrng : Forall (rop_in_range (length st)) rins.
+(* NumPy: with dtype= given, the result does not depend on the dtype of out *)
+Hypothesis HNP : forall odt, NP (mkReq m kw (map (raw_in st) rins) [Some (odt, a_shape (rd st id))]) = Ok [r].
+Hypothesis Hrd : a_dt r = d.
+Hypothesis Hshape : shape_eqb (a_shape r) (a_shape (rd st id)) = true.
+Hypothesis Hcast : can_cast d (a_dt (rd st id)) = true.
+
+Let tmp := cast_arr cast d (rd st id).
+Let st1 := st ++ [tmp].
+
+Lemma can_cast_refl x : can_cast x x = true.
+Proof. destruct x; reflexivity. Qed.
+
+Lemma raw_on_temporary :
+  raw_ufunc cast NP st1 m kw rins [Some (length st)]
+  = Ok ([RRBuf (length st)], wr st1 (length st) (assign_into cast tmp r)).
+Proof.
+  unfold raw_ufunc. cbn [map out_descr option_map]. unfold st1.
+  rewrite raw_in_app by exact Hrng. rewrite rd_app_new.
+  change (a_shape tmp) with (a_shape (rd st id)). change (a_dt tmp) with d.
+  rewrite HNP, Hat. cbn [place]. rewrite rd_app_new.
+  change (a_shape tmp) with (a_shape (rd st id)). change (a_dt tmp) with d.
+  rewrite Hrd, can_cast_refl, Hshape. reflexivity.
+Qed.
+Lemma raw_direct :
+  raw_ufunc cast NP st m kw rins [Some id]
+  = Ok ([RRBuf id], wr st id (assign_into cast (rd st id) r)).
+Proof.
+  unfold raw_ufunc. cbn [map out_descr option_map]. rewrite HNP, Hat. cbn [place].
+  rewrite Hrd, Hcast, Hshape. reflexivity.
+Qed.
+
+Lemma write_back (o : operand) : op_buf o = Some id -> (forall v, cast d d v = v) ->
+  let st3 := wa_exit cast (wr st1 (length st) (assign_into cast tmp r)) o (Some (length st)) in
+  a_data (rd st3 id) = map (cast d (a_dt (rd st id))) (a_data r)
+  /\ a_dt (rd st3 id) = a_dt (rd st id)
+  /\ forall j, (j < length st)%nat -> j <> id -> rd st3 j = rd st j.
+Proof.
+  intros Hb Hcc st3. unfold st3, wa_exit. rewrite Hb.
+  assert (Hidne : (id =? length st)%nat = false) by (apply Nat.eqb_neq; lia).
+  rewrite Hidne.
+  assert (Hl1 : length st1 = S (length st)) by (unfold st1; rewrite app_length; cbn; lia).
+  rewrite rd_wr_same by (rewrite wr_length; lia).
+  rewrite (rd_wr_other _ (length st) id) by lia.
+  rewrite rd_wr_same by lia.
+  unfold st1 at 1 2. rewrite rd_app_old by exact Hid.
+  unfold assign_into. cbn [a_data a_dt]. change (a_dt tmp) with d. rewrite Hrd, map_map.
+  split; [apply map_ext; intros v; rewrite Hcc; reflexivity|]. split; [reflexivity|].
+  intros j Hj Hjid. rewrite rd_wr_other by congruence. rewrite rd_wr_other by lia.
+  unfold st1. apply rd_app_old. exact Hj.
+Qed.
+
+(* the ODL call with out=o (buffer id, dtype <> d) and dtype=d *)
+Lemma tens_out_dtype_kw sp ins o :
+  kw_dtype kw = Some d ->
+  tens_valid_out (Some o) = true -> op_buf o = Some id ->
+  dt_eqb d (a_dt (rd st id)) = false ->
+  map_opt tens_unwrap ins = Some rins ->
+  (forall v, cast d d v = v) ->
+  exists st' str,
+    tens_ufunc NP st sp 1 m ins kw [Some o] = Ok ([o], st')
+    /\ raw_ufunc cast NP st m kw rins [Some id] = Ok ([RRBuf id], str)
+    /\ a_data (rd st' id) = a_data (rd str id) /\ a_dt (rd st' id) = a_dt (rd str id)
+    /\ forall j, (j < length st)%nat -> j <> id -> rd st' j = rd st j /\ rd str j = rd st j.
+Proof.
+  intros Hd Hv Hb Hne Hu Hcc.
+  destruct (write_back o Hb Hcc) as (Hdat & Hdt & Hfr).
+  exists (wa_exit cast (wr st1 (length st) (assign_into cast tmp r)) o (Some (length st))),
+         (wr st id (assign_into cast (rd st id) r)).
+  assert (Henter : wa_enter cast st o (Some d) = (st1, Some (length st))).
+  { unfold wa_enter. rewrite Hb, Hne. reflexivity. }
+  split; [| split; [exact raw_direct|]].
+  - unfold Model.tens_ufunc.
+    assert (Hlen : len_ok m 1 1 = true) by (unfold len_ok; destruct (is_call m); reflexivity).
+    cbn [length]. rewrite Hlen. cbn [negb forallb]. rewrite Hv. cbn [andb negb]. rewrite Hu.
+    destruct (is_call m) eqn:Em.
+    + pose proof (is_call_MCall m Em) as Hm. cbn [Nat.eqb orb negb].
+      unfold pad_none. cbn [length Nat.sub repeat app].
+      cbn [enter_all]. rewrite Hd, Henter. cbn [enter_all]. rewrite <- Hm, raw_on_temporary.
+      cbn [exit_all]. cbn. reflexivity.
+    + rewrite Hd, Henter, Hat, raw_on_temporary. reflexivity.
+  - rewrite rd_wr_same by exact Hid. unfold assign_into at 2 4. cbn [a_data a_dt]. rewrite Hrd.
+    split; [exact Hdat|]. split; [exact Hdt|].
+    intros j Hj Hjid. split; [apply Hfr; assumption | apply rd_wr_other; congruence].
+Qed.
+End OutDtype.
 
 (* x.asarray() of space.element(arr) is arr itself when dtype and shape match *)
 Lemma element_shares (st : store) (sp : tspace) (id : nat) :
